@@ -136,6 +136,14 @@ func verifyManifest(inz *zip.Reader, manifest []byte) error {
 		}
 		fh := zipfiles[filename]
 		if fh == nil {
+			if strings.HasSuffix(filename, "/") {
+				// a per-package section (sealing, versioning) needs no directory
+				// entry in the archive; there is no content but the empty one
+				if err := hashFile(keys, bytes.NewReader(nil), ""); err != nil {
+					return fmt.Errorf("file \"%s\" in MANIFEST.MF: %w", filename, err)
+				}
+				continue
+			}
 			return fmt.Errorf("file %s is in manifest but not JAR", filename)
 		}
 		r, err := fh.Open()
